@@ -246,7 +246,7 @@ pub fn run_case(block: &Path, c: &RdCase, r: &mut Report) {
     // the subject
     let ud = ux(&p2b(&d));
     set_case(&cj.to_string());
-    let got: Result<Result<Vec<Seen>, String>, String> = catch(|| {
+    let got: Result<Result<Vec<Seen>, String>, String> = seam(|| catch(|| {
         let dir = tiny_std::fs::Directory::open(&ud).map_err(|e| format!("open: {e}"))?;
         let mut v = Vec::new();
         for ent in dir.read() {
@@ -260,7 +260,7 @@ pub fn run_case(block: &Path, c: &RdCase, r: &mut Report) {
             });
         }
         Ok(v)
-    });
+    }));
     clear_case();
     let label = match c {
         RdCase::Multi(_) => format!("directory with entries {}", cj["entries"]),
@@ -321,10 +321,14 @@ pub fn run_case(block: &Path, c: &RdCase, r: &mut Report) {
                         cj.clone(),
                     ),
                     Some(t) => {
-                        let unknown_ok = s.ty == "unknown" && DTYPE_UNKNOWN_FS.load(Ordering::Relaxed);
+                        // a file system that does not say: Unknown is recorded, not judged
+                        let unknown_ok = s.ty == "unknown" && (DTYPE_UNKNOWN_FS.load(Ordering::Relaxed) || dt_unknown_mode());
+                        if dt_unknown_mode() {
+                            r.outcome(if s.ty == "unknown" { "dt-unknown:type-unknown" } else { "dt-unknown:type-resolved" });
+                        }
                         if *t != s.ty && !unknown_ok {
                             r.violation(
-                                "C14:readdir:wrong-type",
+                                &mode_key("C14:readdir:wrong-type"),
                                 format!("{label}: entry {} has file_type() {} but std's symlink_metadata says {t}", show_bytes(&name), s.ty),
                                 cj.clone(),
                             );
@@ -458,13 +462,15 @@ pub fn phase(args: &Args, master: &Path) -> Report {
         if args.thorough { "{0,1,2,3,10,100,5000}" } else { "{0,1,2,3,10,100}" },
         special_names().len()
     );
-    for part in [crate::forged::run_all(args, master), crate::dirhandle::run_all(args, master)] {
+    for part in [crate::forged::run_all(args, master), crate::dirhandle::run_all(args, master), crate::dtunknown::run_listing(args, master)] {
         r.merge(part);
     }
     r.rule.push_str(" ");
     r.rule.push_str(&crate::forged::rule());
     r.rule.push_str(" ");
     r.rule.push_str(&crate::dirhandle::rule(args.thorough));
+    r.rule.push_str(" ");
+    r.rule.push_str(&crate::dtunknown::rule_listing(args.thorough));
     r.bound("cases", n);
     r.bound("max_entries_in_multiset", maxk);
     r.bound("getdents_buffer", 512);
